@@ -4,7 +4,9 @@
      cfg   letters: D = after every call print the dumps of the roots that changed; X = at the end delete every
            live root and print the ledger again; T = (implementation only) run on a thread with a small stack;
            - = none
-     fail  0 = no allocation failure, k = the k-th request (1-based) fails, m<hex> = requests whose bit is set fail
+           S = the model driver answers MODEL-SKIPPED (cases that are too expensive for the extracted model)
+     fail  0 = no allocation failure, k = the k-th request (1-based) fails, m<hex> = requests whose bit is set fail,
+           @<j>.<k> = the k-th request counted from the start of call number j (0-based) fails, L<k> = same for the last call
      op    name:arg:arg...   (see parse_op)
    result: one segment per call, separated by " ; ":   <result> [<handle>:<dump> ...] L<live blocks>
            then " ; END live=<n> reqs=<n>" and, with X, " X live=<n>".
@@ -137,16 +139,24 @@ let result_str (st : state) (r : result) : string =
   | RStr s -> hex_of_opt s
   | RInts l -> if l = [] then "=" else String.concat "," (List.map (fun z -> string_of_int (int_of_z z)) l)
 
-let oracle_of (s : string) : nat -> bool =
-  if s.[0] = 'm' then fail_mask (z_of_hex (String.sub s 1 (String.length s - 1)))
-  else fail_kth (nat_of_int (int_of_string s))
+(* the failure schedule: a function of the call number and of the requests made before that call *)
+let oracle_of (s : string) (nops : int) : int -> int -> (nat -> bool) =
+  let rest = String.sub s 1 (String.length s - 1) in
+  let never = fail_kth O in
+  let at j0 k = fun j before -> if j = j0 then (fun i -> int_of_nat i = before + k - 1) else never in
+  if s.[0] = 'm' then (let o = fail_mask (z_of_hex rest) in fun _ _ -> o)
+  else if s.[0] = 'L' then at (nops - 1) (int_of_string rest)
+  else if s.[0] = '@' then (match String.split_on_char '.' rest with [j; k] -> at (int_of_string j) (int_of_string k) | _ -> failwith "bad fail spec")
+  else (let o = fail_kth (nat_of_int (int_of_string s)) in fun _ _ -> o)
 
 exception Model_err of string
 
 let h_hist (a : string array) : string =
   let cfg = a.(1) in
-  let oracle = oracle_of a.(2) in
+  if String.contains cfg 'S' then "MODEL-SKIPPED" else
   let ops = if Array.length a > 3 then List.filter (fun s -> s <> "") (split_on ';' a.(3)) else [] in
+  let oracle_at = oracle_of a.(2) (List.length ops) in
+  let opno = ref 0 in
   let with_dumps = String.contains cfg 'D' in
   let out = Buffer.create 4096 in
   let heap = ref empty_heap in
@@ -159,6 +169,8 @@ let h_hist (a : string array) : string =
   (try
     List.iter (fun s ->
       let o = parse_op s in
+      let oracle = oracle_at !opno (int_of_nat (!heap).h_req) in
+      incr opno;
       let (r, st') = run (run_op oracle !st o) in
       st := st';
       Buffer.add_string out (result_str !st r);
@@ -189,7 +201,7 @@ let h_hist (a : string array) : string =
       for i = 0 to n - 1 do
         (* is handle i still a live root? *)
         if List.exists (fun j -> int_of_nat j = i) (run (live_roots !st)) then begin
-          let (_, st') = run (run_op oracle !st (ODelete (IH (nat_of_int i)))) in st := st'
+          let (_, st') = run (run_op (fail_kth O) !st (ODelete (IH (nat_of_int i)))) in st := st'
         end
       done;
       Buffer.add_string out (Printf.sprintf " X live=%d" (int_of_nat (live_count !heap)))
